@@ -1,0 +1,150 @@
+//go:build verif && (verif_all || verif_c18)
+// +build verif
+// +build verif_all verif_c18
+
+package gocql
+
+// Verification hooks for C18, round 7 (compressed frames on every receive path; negotiation over
+// histories of connections to one host): a connection whose session can take server events, whose
+// HostInfo is chosen (and re-used) by the caller and whose closing error is reported. Add-only.
+
+import (
+	"context"
+	"fmt"
+	"net"
+	"sync"
+	"sync/atomic"
+	"time"
+)
+
+// VerifC18eEnv is what several connections of one scenario share: the session (with event
+// debouncers that only collect: no flusher goroutine, no timer-driven callback) and ONE HostInfo.
+type VerifC18eEnv struct {
+	s      *Session
+	host   *HostInfo
+	cfg    *ConnConfig // ONE ConnConfig for all connections of the environment, as in a host's pool
+	dialer *verifC18eDialer
+}
+
+// verifC18eDialer hands out the transport the caller chose for the next connection.
+type verifC18eDialer struct {
+	mu   sync.Mutex
+	next net.Conn
+}
+
+func (d *verifC18eDialer) DialHost(ctx context.Context, host *HostInfo) (*DialedHost, error) {
+	d.mu.Lock()
+	defer d.mu.Unlock()
+	if d.next == nil {
+		return nil, fmt.Errorf("verif: no transport prepared")
+	}
+	c := d.next
+	d.next = nil
+	return &DialedHost{Conn: c, DisableCoalesce: true}, nil
+}
+
+var verifC18eEnvs uint32
+
+// VerifC18eNewEnv makes a session and a HostInfo that lives as long as the environment.
+func VerifC18eNewEnv() *VerifC18eEnv {
+	deb := func(name string) *eventDebouncer {
+		t := time.NewTimer(time.Hour)
+		t.Stop()
+		return &eventDebouncer{name: name, quit: make(chan struct{}), timer: t,
+			callback: func([]frame) {}, logger: nopLogger{}}
+	}
+	// every environment is another host (id and address): nothing that is keyed by host carries over
+	// from one environment of the process to the next
+	n := atomic.AddUint32(&verifC18eEnvs, 1)
+	s := &Session{logger: nopLogger{}}
+	s.nodeEvents = deb("NodeEvents")
+	s.schemaEvents = deb("SchemaEvents")
+	return &VerifC18eEnv{
+		s:      s,
+		host:   &HostInfo{hostId: fmt.Sprintf("verif-c18e-%d", n), connectAddress: net.IPv4(127, 1, byte(n>>8), byte(n)), port: 9042},
+		dialer: &verifC18eDialer{},
+	}
+}
+
+// Dial runs the real connection startup over nc for the environment's HostInfo, with the environment's
+// ConnConfig (made by the first Dial from comp / proto / timeout, re-used by the later ones like the
+// connCfg of a pool). onClose is called with the error the connection was closed with
+// (Conn.closeWithError -> errorHandler.HandleError).
+func (e *VerifC18eEnv) Dial(nc net.Conn, comp Compressor, proto int, timeout time.Duration, onClose func(error)) (*Conn, error) {
+	if e.cfg == nil {
+		e.cfg = &ConnConfig{ProtoVersion: proto, CQLVersion: "3.0.0", Timeout: timeout, ConnectTimeout: timeout,
+			Compressor: comp, HostDialer: e.dialer, disableCoalesce: true, Logger: nopLogger{}}
+	}
+	e.dialer.mu.Lock()
+	e.dialer.next = nc
+	e.dialer.mu.Unlock()
+	return e.s.dial(context.Background(), e.host, e.cfg, connErrorHandlerFn(func(c *Conn, err error, closed bool) {
+		if onClose != nil {
+			onClose(err)
+		}
+	}))
+}
+
+// TakeEvents returns (and removes) the node events Session.handleEvent has queued so far, one string
+// per event: "<TYPE>/<change>/<hex ip>/<port>".
+func (e *VerifC18eEnv) TakeEvents() []string {
+	var out []string
+	for _, d := range []*eventDebouncer{e.s.nodeEvents, e.s.schemaEvents} {
+		d.mu.Lock()
+		evs := d.events
+		d.events = nil
+		d.mu.Unlock()
+		for _, f := range evs {
+			switch v := f.(type) {
+			case *statusChangeEventFrame:
+				out = append(out, fmt.Sprintf("STATUS_CHANGE/%s/%x/%d", v.change, []byte(v.host), v.port))
+			case *topologyChangeEventFrame:
+				out = append(out, fmt.Sprintf("TOPOLOGY_CHANGE/%s/%x/%d", v.change, []byte(v.host), v.port))
+			default:
+				out = append(out, fmt.Sprintf("OTHER/%T", f))
+			}
+		}
+	}
+	return out
+}
+
+// VerifC18eSession makes a real Session (policies, host pool with numConns connections, no control
+// connection) whose connections are dialled by the caller's HostDialer.
+func VerifC18eSession(dialer HostDialer, comp Compressor, numConns int, timeout time.Duration) (*Session, error) {
+	cfg := NewCluster("127.0.0.1")
+	cfg.ProtoVersion = 4
+	cfg.HostDialer = dialer
+	cfg.Compressor = comp
+	cfg.NumConns = numConns
+	cfg.Timeout = timeout
+	cfg.ConnectTimeout = timeout
+	cfg.DisableInitialHostLookup = true
+	cfg.ReconnectInterval = 0
+	cfg.WriteCoalesceWaitTime = 0
+	cfg.Logger = nopLogger{}
+	cfg.PoolConfig.HostSelectionPolicy = RoundRobinHostPolicy()
+	cfg.Consistency = One
+	cfg.disableControlConn = true
+	return NewSession(*cfg)
+}
+
+// VerifC18eSessionConns returns the live connections of the session's host pools; with fill set it
+// first asks every pool to fill itself (hostConnPool.fill: what a lost connection triggers).
+func VerifC18eSessionConns(s *Session, fill bool) []*Conn {
+	var out []*Conn
+	s.pool.mu.RLock()
+	pools := make([]*hostConnPool, 0, len(s.pool.hostConnPools))
+	for _, p := range s.pool.hostConnPools {
+		pools = append(pools, p)
+	}
+	s.pool.mu.RUnlock()
+	for _, p := range pools {
+		if fill {
+			p.fill()
+		}
+		p.mu.RLock()
+		out = append(out, p.conns...)
+		p.mu.RUnlock()
+	}
+	return out
+}
